@@ -65,6 +65,46 @@ fn seg_case(
     } else if s1.intersects(&s2) {
         st.fail(jobj(&[("what", jstr("intersects true but intersection_t None")), ("input", jstr(&text))]));
     }
+    // ---- the segment against the infinite line through the other one, and line x line (integer oracles)
+    if (c[4], c[5]) != (c[6], c[7]) {
+        let (a, b, cc, d) = ((c[0], c[1]), (c[2], c[3]), (c[4], c[5]), (c[6], c[7]));
+        let line = s2.to_line();
+        let cr = (b.0 - a.0) * (d.1 - cc.1) - (b.1 - a.1) * (d.0 - cc.0);
+        let want_t = cr != 0 && orient(cc, d, a) * orient(cc, d, b) <= 0;
+        match catch(|| (s1.line_intersection_t(&line), s1.line_intersection(&line))) {
+            None => st.fail(jobj(&[("what", jstr("line_intersection_t panicked")), ("input", jstr(&text))])),
+            Some((lt, lp)) => {
+                if lt.is_some() != want_t || lp.is_some() != want_t {
+                    st.fail(jobj(&[("what", jstr("segment / line: crossing reported exactly when the segment meets the line at one point fails")), ("input", jstr(&format!("{} -> {:?}", text, lt)))]));
+                }
+                if let (Some(t), Some(p)) = (lt, lp) {
+                    let q = s1.sample(t);
+                    let off = (q - line.point).cross(line.vector).abs();
+                    if !(0.0..=1.0).contains(&t) || off > 1e-9 || (p - q).length() > 1e-12 {
+                        st.fail(jobj(&[("what", jstr("segment / line: the returned parameter is not on the line")), ("input", jstr(&format!("{} -> t {}", text, t)))]));
+                    }
+                }
+            }
+        }
+        if (c[0], c[1]) != (c[2], c[3]) {
+            let l1 = s1.to_line();
+            match catch(|| l1.intersection(&line)) {
+                None => st.fail(jobj(&[("what", jstr("Line::intersection panicked")), ("input", jstr(&text))])),
+                Some(p) => {
+                    if p.is_some() != (cr != 0) {
+                        st.fail(jobj(&[("what", jstr("Line::intersection: a point is reported exactly for non-parallel lines fails")), ("input", jstr(&format!("{} -> {:?}", text, p)))]));
+                    }
+                    if let Some(p) = p {
+                        let o1 = (p - l1.point).cross(l1.vector).abs();
+                        let o2 = (p - line.point).cross(line.vector).abs();
+                        if o1 > 1e-9 || o2 > 1e-9 {
+                            st.fail(jobj(&[("what", jstr("Line::intersection: the point is not on both lines")), ("input", jstr(&format!("{} -> {:?}", text, p)))]));
+                        }
+                    }
+                }
+            }
+        }
+    }
     let out = match r {
         Some((t, u)) => glist(vec![gq64(t), gq64(u)]),
         None => "[]".to_string(),
@@ -161,6 +201,74 @@ fn curve_checks(args: &Args, st: &mut Stats) {
                 }
             }
         }
+        // ---- cubic x segment, and the point-returning variants of the queries above
+        if (pb - pa).length() > 0.5 {
+            let seg = LineSegment { from: pa + (pa - pb) * 0.25, to: pb + (pb - pa) * 0.25 };
+            let line = Line { point: pa, vector: pb - pa };
+            let scale = (pb - pa).length();
+            if let Some(v) = catch(|| c.line_segment_intersections_t(&seg)) {
+                for (t, u) in v.iter() {
+                    if !(0.0..=1.0).contains(t) || !(0.0..=1.0).contains(u) || (c.sample(*t) - seg.sample(*u)).length() > 1e-4 * (1.0 + scale) {
+                        st.fail(jobj(&[("what", jstr("cubic/segment: parameters do not denote a common point")), ("input", jstr(&format!("{:?} {:?} t={} u={}", c, seg, t, u)))]));
+                    }
+                }
+                for want in [ta, tb] {
+                    let tang = c.derivative(want);
+                    let transversal = tang.cross(pb - pa).abs() > 0.2 * tang.length() * scale;
+                    if transversal && !v.iter().any(|(t, _)| (t - want).abs() < 1e-5) {
+                        st.fail(jobj(&[("what", jstr("cubic/segment: transversal crossing not reported")), ("input", jstr(&format!("{:?} {:?} want t={}", c, seg, want)))]));
+                    }
+                }
+            } else {
+                st.fail(jobj(&[("what", jstr("cubic line_segment_intersections_t panicked")), ("input", jstr(&format!("{:?} {:?}", c, seg)))]));
+            }
+            // points = samples at the parameters
+            let r2 = catch(|| (c.line_intersections_t(&line), c.line_intersections(&line), c.line_segment_intersections_t(&seg), c.line_segment_intersections(&seg)));
+            if let Some((ts, ps, tus, sps)) = r2 {
+                if ts.len() != ps.len() || ts.iter().zip(ps.iter()).any(|(t, p)| (c.sample(*t) - *p).length() > 1e-9 * (1.0 + scale)) {
+                    st.fail(jobj(&[("what", jstr("cubic line_intersections is not the samples at line_intersections_t")), ("input", jstr(&format!("{:?} {:?}", c, line)))]));
+                }
+                if tus.len() != sps.len() || tus.iter().zip(sps.iter()).any(|((t, _), p)| (c.sample(*t) - *p).length() > 1e-9 * (1.0 + scale)) {
+                    st.fail(jobj(&[("what", jstr("cubic line_segment_intersections is not the samples at line_segment_intersections_t")), ("input", jstr(&format!("{:?} {:?}", c, seg)))]));
+                }
+            }
+            let (qa, qb) = (q.sample(ta), q.sample(tb));
+            if (qb - qa).length() > 0.5 {
+                let qline = Line { point: qa, vector: qb - qa };
+                let qseg = LineSegment { from: qa + (qa - qb) * 0.25, to: qb + (qb - qa) * 0.25 };
+                if let Some((ts, ps, tus, sps)) = catch(|| (q.line_intersections_t(&qline), q.line_intersections(&qline), q.line_segment_intersections_t(&qseg), q.line_segment_intersections(&qseg))) {
+                    if ts.len() != ps.len() || ts.iter().zip(ps.iter()).any(|(t, p)| (q.sample(*t) - *p).length() > 1e-9 * (1.0 + scale)) {
+                        st.fail(jobj(&[("what", jstr("quadratic line_intersections is not the samples at line_intersections_t")), ("input", jstr(&format!("{:?} {:?}", q, qline)))]));
+                    }
+                    if tus.len() != sps.len() || tus.iter().zip(sps.iter()).any(|((t, _), p)| (q.sample(*t) - *p).length() > 1e-9 * (1.0 + scale)) {
+                        st.fail(jobj(&[("what", jstr("quadratic line_segment_intersections is not the samples at line_segment_intersections_t")), ("input", jstr(&format!("{:?} {:?}", q, qseg)))]));
+                    }
+                }
+            }
+        }
+        // ---- cubic x quadratic: soundness of every reported pair / point
+        {
+            let q2 = QuadraticBezierSegment { from: g(r), ctrl: g(r), to: g(r) };
+            st.inc("cubic_quadratic");
+            match catch(|| (c.quadratic_intersections_t(&q2), c.quadratic_intersections(&q2))) {
+                None => st.fail(jobj(&[("what", jstr("quadratic_intersections_t panicked")), ("input", jstr(&format!("{:?} {:?}", c, q2)))])),
+                Some((v, ps)) => {
+                    for (t, u) in v.iter() {
+                        let d = (c.sample(*t) - q2.sample(*u)).length();
+                        if !(0.0..=1.0).contains(t) || !(0.0..=1.0).contains(u) || d > 1e-3 {
+                            st.fail(jobj(&[("what", jstr("cubic/quadratic: parameters do not denote a common point")), ("input", jstr(&format!("{:?} {:?} t={} u={} d={}", c, q2, t, u, d)))]));
+                        }
+                    }
+                    // the point variant sorts and de-duplicates: every point is a sample at one of the parameters, every
+                    // parameter's sample is (close to) one of the points
+                    let every_point = ps.iter().all(|p| v.iter().any(|(t, _)| (c.sample(*t) - *p).length() < 1e-9 * 40.0));
+                    let every_t = v.iter().all(|(t, _)| ps.iter().any(|p| (c.sample(*t) - *p).length() < 1e-3));
+                    if !every_point || !every_t {
+                        st.fail(jobj(&[("what", jstr("quadratic_intersections is not the samples at quadratic_intersections_t")), ("input", jstr(&format!("{:?} {:?}", c, q2)))]));
+                    }
+                }
+            }
+        }
         // ---- cubic x cubic: soundness of every reported pair
         let c2 = CubicBezierSegment { from: g(r), ctrl1: g(r), ctrl2: g(r), to: g(r) };
         st.inc("evaluations");
@@ -175,6 +283,13 @@ fn curve_checks(args: &Args, st: &mut Stats) {
                     let d = (c.sample(*t) - c2.sample(*u)).length();
                     if !(0.0..=1.0).contains(t) || !(0.0..=1.0).contains(u) || d > 1e-3 {
                         st.fail(jobj(&[("what", jstr("cubic/cubic: parameters do not denote a common point")), ("input", jstr(&format!("{:?} {:?} t={} u={} d={}", c, c2, t, u, d)))]));
+                    }
+                }
+                if let Some(ps) = catch(|| c.cubic_intersections(&c2)) {
+                    let every_point = ps.iter().all(|p| v.iter().any(|(t, _)| (c.sample(*t) - *p).length() < 1e-9 * 40.0));
+                    let every_t = v.iter().all(|(t, _)| ps.iter().any(|p| (c.sample(*t) - *p).length() < 1e-3));
+                    if !every_point || !every_t {
+                        st.fail(jobj(&[("what", jstr("cubic_intersections is not the samples at cubic_intersections_t")), ("input", jstr(&format!("{:?} {:?}", c, c2)))]));
                     }
                 }
             }
